@@ -210,6 +210,21 @@ func runAPI(c *harness.Ctx) harness.Result {
 			f.Filename = ""
 		}
 	}
+	if r.Intn(5) == 0 && len(p.Function) > 0 {
+		// a function known by neither name nor file
+		f := p.Function[r.Intn(len(p.Function))]
+		f.Name, f.SystemName, f.Filename = "", "", ""
+	}
+	if r.Intn(6) == 0 && len(p.Sample) > 0 && len(p.Location) > 0 {
+		// a very deep stack (more than 64 frames), half of the time in the first sample
+		smp := p.Sample[0]
+		if r.Intn(2) == 0 {
+			smp = p.Sample[r.Intn(len(p.Sample))]
+		}
+		for len(smp.Location) < 66+r.Intn(40) {
+			smp.Location = append(smp.Location, p.Location[r.Intn(len(p.Location))])
+		}
+	}
 	gran := []string{"functions", "filefunctions", "files", "lines", "addresses"}[r.Intn(5)]
 	noinl, cols := r.Intn(4) == 0, r.Intn(3) == 0
 	index := r.Intn(len(p.SampleType))
